@@ -354,8 +354,9 @@ _GAPS = {
            "the store are under contract).",
     "C03": "the aiohttp front end's header access (the WSGI adapter is under contract); methods other than GET / PUT / DELETE.",
     "C06": "VdirStore._scan_uids / _check_duplicate (not used by the server, which opens git stores only).",
-    "C07": "SyncCollectionReporter.report - parsing of the request's token / level and the assembly of one response per difference - "
-           "sits above the contracts (iter_changes, iter_differences_since, get_ctag, iter_with_etag), which decide what the differences are.",
+    "C07": "sync-collection requests that are not of the usual shape (sync-token, sync-level, prop in this order) or carry DAV:limit; the "
+           "properties shown for a *changed* member (only those that differ are shown; for a created member all requested ones are, and "
+           "that is under contract); serialisation of the multistatus.",
     "C08": "the getctag / sync-token property handlers themselves (one-line wrappers); PROPFIND ({DAV:}prop, Depth 0/1), "
            "get_property_from_element and StoreBasedCollection.get_ctag / get_sync_token / get_etag are under contract.",
     "C09": "GitStore.create / open (the representation invariant is assumed of the repository found on disk).",
@@ -374,6 +375,7 @@ PROPS["C15"]["functions"] += ["xandikos.webdav.ProppatchMethod.handle"]
 for _pid in ("C07", "C11", "C12", "C17"):
     PROPS[_pid]["functions"] += ["xandikos.webdav.ReportMethod.handle"]
 PROPS["C17"]["functions"] += ["xandikos.davcommon.MultiGetReporter.report"]
+PROPS["C07"]["functions"] += ["xandikos.sync.SyncCollectionReporter.report"]
 # refinement checks: the git stores' own bodies against the *interface* contracts the generic code is verified with
 _RF = "xandikos.store.git."
 PROPS["C01"]["functions"] += [_RF + c + m for c in ("BareGitStore", "TreeGitStore") for m in ("._import_one@iface", ".delete_one@iface")]
